@@ -10,6 +10,7 @@ CONSTANTS
   Rfc0028 = TRUE
   NBlocks = 9
   TsSteps = {1, 2, 3}
+  ForceT = FALSE
   Emit = TRUE
 INVARIANT EmitCtx
 CHECK_DEADLOCK FALSE
